@@ -13,6 +13,31 @@ Proof. unfold lenN. rewrite app_length. lia. Qed.
 Lemma lenN_word_value v : lenN (word_value v) = 32.
 Proof. unfold word_value, zeros. rewrite lenN_app. unfold lenN. rewrite be_encode_length, repeat_length. reflexivity. Qed.
 
+(* ---- ranges ---- *)
+Lemma key_seq_all_valid n : forall k,
+  (n = O \/ k + N.of_nat n - 1 < KEY_LIMIT) -> filter (fun k' => k' <? KEY_LIMIT) (key_seq n k) = key_seq n k.
+Proof.
+  induction n as [|n IH]; intros k H; [reflexivity|]. cbn [key_seq filter].
+  destruct H as [H|H]; [discriminate|]. rewrite Nat2N.inj_succ in H.
+  destruct (N.ltb_spec k KEY_LIMIT); [|lia]. f_equal. apply IH.
+  destruct n; [left; reflexivity | right; rewrite Nat2N.inj_succ in *; lia].
+Qed.
+Lemma range_keys_ok k n : range_ok k n = true -> range_keys k n = key_seq (N.to_nat n) k.
+Proof.
+  unfold range_ok, range_keys. intros H. apply key_seq_all_valid.
+  destruct (N.eqb_spec n 0) as [Hz|Hn]; [left; rewrite Hz; reflexivity|]. right. cbn [orb] in H. apply N.ltb_lt in H.
+  rewrite N2Nat.id. lia.
+Qed.
+Lemma range_ok_alt k n :
+  range_ok k n = (Nat.eqb (N.to_nat n) 0) || (k + 0 + N.of_nat (N.to_nat n) - 1 <? KEY_LIMIT).
+Proof.
+  unfold range_ok. rewrite N2Nat.id, N.add_0_r.
+  destruct (N.eqb_spec n 0) as [->|Hn]; [reflexivity|].
+  destruct (Nat.eqb_spec (N.to_nat n) 0) as [H0|H0]; [lia|]. cbn [orb].
+  replace (k + n - 1) with (k + (n - 1)) by lia. reflexivity.
+Qed.
+
+
 Section Instr.
   Context (e : henv) (m : kvmap) (c : N).
   Let max := h_max_len e.
@@ -154,30 +179,6 @@ Section Instr.
       (destruct (N.ltb_spec a REG_WRITABLE); [destruct Ha; [contradiction | lia] | reflexivity]).
   Qed.
 
-  (* ---- ranges ---- *)
-  Lemma key_seq_all_valid n : forall k,
-    (n = O \/ k + N.of_nat n - 1 < KEY_LIMIT) -> filter (fun k' => k' <? KEY_LIMIT) (key_seq n k) = key_seq n k.
-  Proof.
-    induction n as [|n IH]; intros k H; [reflexivity|]. cbn [key_seq filter].
-    destruct H as [H|H]; [discriminate|]. rewrite Nat2N.inj_succ in H.
-    destruct (N.ltb_spec k KEY_LIMIT); [|lia]. f_equal. apply IH.
-    destruct n; [left; reflexivity | right; rewrite Nat2N.inj_succ in *; lia].
-  Qed.
-  Lemma range_keys_ok k n : range_ok k n = true -> range_keys k n = key_seq (N.to_nat n) k.
-  Proof.
-    unfold range_ok, range_keys. intros H. apply key_seq_all_valid.
-    destruct (N.eqb_spec n 0) as [Hz|Hn]; [left; rewrite Hz; reflexivity|]. right. cbn [orb] in H. apply N.ltb_lt in H.
-    rewrite N2Nat.id. lia.
-  Qed.
-  Lemma range_ok_alt k n :
-    range_ok k n = (Nat.eqb (N.to_nat n) 0) || (k + 0 + N.of_nat (N.to_nat n) - 1 <? KEY_LIMIT).
-  Proof.
-    unfold range_ok. rewrite N2Nat.id, N.add_0_r.
-    destruct (N.eqb_spec n 0) as [->|Hn]; [reflexivity|].
-    destruct (Nat.eqb_spec (N.to_nat n) 0) as [H0|H0]; [lia|]. cbn [orb].
-    replace (k + n - 1) with (k + (n - 1)) by lia. reflexivity.
-  Qed.
-
   (* the read loop of SCWQ: all keys valid -> conjunction of presence flags; else TooManySlots *)
   Lemma isset_loop_plain {A} key (k : bool -> kprog A) n : forall i acc,
     run_plain max (isset_loop n c key i acc k) m =
@@ -247,7 +248,7 @@ Fixpoint chunk_writes (c k : N) (chunks : list bytes) : list wevent :=
   match chunks with [] => [] | v :: r => WWrite c k v :: chunk_writes c (k + 1) r end.
 Definition swwq_statement : Prop :=
   forall (e : henv) (m : kvmap) (c b va vc vd : N) (kb : bytes) (chunks : list bytes),
-    h_ctx e = Some c -> h_rd e va 32 = MOk kb -> REG_WRITABLE <= b -> lenN chunks = vd ->
+    h_ctx e = Some c -> h_rd e va 32 = MOk kb -> be_decode kb < KEY_LIMIT -> REG_WRITABLE <= b -> lenN chunks = vd ->
     (forall j, (j < length chunks)%nat -> h_rd e (sat64 (vc + 32 * N.of_nat j)) 32 = MOk (nth j chunks [])) ->
     (forall ch, In ch chunks -> lenN ch = 32) ->
     match spec_write_quads m c (be_decode kb) chunks (h_max_len e) with
